@@ -10,6 +10,7 @@ EvOK(ev) ==
          /\ ev.same = (ev.in.kind = "protocol")                 \* identity on errors that already are protocol exceptions
          /\ ev.isin                                             \* the cause stays reachable through errors.Is
          /\ (ev.in.kind # "protocol") => ev.unwrapsame          \* ... and Unwrap returns exactly it
+         /\ ev.iscause                                          \* ... and so does everything the given error wraps itself
     [] ev.k = "exc_is" -> ev.res = ErrorsIs(ev.x, ev.t)
     [] OTHER -> TRUE
 TraceInit == l = 1
